@@ -298,7 +298,7 @@ class MinGenSet():
                         for j in range(t)
                     )
                     == 1,
-                    name=f"used_exactly_once_constr={c}_i={j}",
+                    name=f"used_exactly_once_constr={c}_i={i}",
                 )
 
         # Imposing the subset constraints
